@@ -157,6 +157,24 @@ static void check_render(vnode *t, const char *origin)
     tctx c; t_open(&c, &d, depth);
     char what[300];
     bool init = root == K_OBJ ? binson_parser_init_object(c.p, c.buf, c.n) : binson_parser_init_array(c.p, c.buf, c.n);
+    static uint64_t hist;
+    hist++;
+    if (init && hist % 4 == 1) {
+        /* history on the same parser: abandoned walk and/or latched error (to_string / print rewind by themselves) */
+        bool b = root == K_OBJ ? binson_parser_go_into_object(c.p) : binson_parser_go_into_array(c.p);
+        for (int i = 0; b && i < 4; i++) { if (!binson_parser_next(c.p)) break; if (binson_parser_get_type(c.p) == BINSON_TYPE_ARRAY) binson_parser_go_into_array(c.p); else if (binson_parser_get_type(c.p) == BINSON_TYPE_OBJECT) binson_parser_go_into_object(c.p); }
+        if (hist % 8 == 1) binson_parser_next_ensure(c.p, (binson_type)77);
+        vw_count("renders_after_history", 1);
+    }
+    if (init && hist % 4 == 2) {
+        /* another parser object rendered something that failed half way (invalid bytes, too small buffer) just before */
+        static const uint8_t bad1[] = { 0x40, 0x14, 0x01, 'a', 0x42, 0x10, 0x01, 0x00, 0x43, 0x41 }, bad2[] = { 0x42, 0x42, 0x40, 0x41, 0x44, 0x47, 0x43, 0x43 };
+        binson_state st2[4]; binson_parser p2; char tmp[8]; size_t tsz = sizeof tmp;
+        memset(&p2, 0, sizeof p2); memset(st2, 0, sizeof st2); p2.state = st2; p2.max_depth = 4;
+        if (hist % 8 == 2) { if (binson_parser_init_object(&p2, bad1, sizeof bad1)) (void)binson_parser_to_string(&p2, tmp, &tsz, false); }
+        else { if (binson_parser_init_array(&p2, bad2, sizeof bad2)) { (void)binson_parser_to_string(&p2, tmp, &tsz, false); (void)binson_parser_print(&p2); fflush(stdout); } }
+        vw_count("renders_after_failed_render_elsewhere", 1);
+    }
     size_t cap = ref.n + 64, sz = cap;
     char *dst = (char *)malloc(cap);
     memset(dst, 0, cap);
